@@ -7,6 +7,8 @@
 //! Differences from c01: the panic location is reported, and the process EXITS after a panic (code 3):
 //! a panic inside the VM can leave process-wide state poisoned (locks), so the caller restarts the rest of
 //! the batch in a fresh process.
+//! `--reuse N`: one Engine serves N consecutive programs (every program defines all the globals it uses); the
+//! caller re-runs every disagreeing program with a fresh engine, so reuse can only hide, never create, a report.
 //! Environment: STEEL_JIT, STEEL_VERIF_GC_EVERY … are read by the engine itself.
 use std::io::{Read, Write};
 use std::panic::{catch_unwind, AssertUnwindSafe};
@@ -26,6 +28,15 @@ fn main() {
             *g = loc;
         }
     }));
+    let args: Vec<String> = std::env::args().collect();
+    let reuse: usize = args
+        .iter()
+        .position(|a| a == "--reuse")
+        .and_then(|i| args.get(i + 1))
+        .and_then(|n| n.parse().ok())
+        .unwrap_or(1);
+    let mut engine: Option<steel::steel_vm::engine::Engine> = None;
+    let mut served = 0usize;
     for prog in src.split("\n;;;===\n") {
         if prog.trim().is_empty() {
             continue;
@@ -33,9 +44,20 @@ fn main() {
         println!("\u{1e}B");
         std::io::stdout().flush().ok();
         let prog = prog.to_string();
+        if engine.is_none() || served >= reuse {
+            engine = None;
+            served = 0;
+        }
+        served += 1;
         let r = catch_unwind(AssertUnwindSafe(|| {
-            steel::steel_vm::engine::Engine::new().compile_and_run_raw_program(prog)
+            if engine.is_none() {
+                engine = Some(steel::steel_vm::engine::Engine::new());
+            }
+            engine.as_mut().unwrap().compile_and_run_raw_program(prog)
         }));
+        if !matches!(r, Ok(Ok(_))) {
+            engine = None; // an error or a panic: the next program gets a fresh engine
+        }
         std::io::stdout().flush().ok();
         match r {
             Ok(Ok(vals)) => {
